@@ -42,6 +42,10 @@ pub trait Flavor: 'static {
     fn send_node(f: &Self::SF) -> NodeSnap;
     fn recv_node(f: &Self::RF) -> NodeSnap;
     fn stream_node(s: &Self::St) -> Option<NodeSnap>;
+    /// shared flavours: number of owners (handles, futures, streams) of the shared state
+    fn owners(_c: &Self::Chan) -> Option<usize> {
+        None
+    }
     /// close() through the stream object, where the flavour has one
     fn close_stream(_s: &Self::St) -> Option<CloseStatus> {
         None
@@ -180,10 +184,19 @@ impl<M: RawMutex + std::fmt::Debug + 'static, A: RingBuf<Item = Tag> + IsGrowing
         unsafe { f.get_unchecked_mut().cancel() }
     }
     fn snapshot(c: &Self::Chan) -> Snapshot {
-        c.vref.verif_snapshot(&tag_of)
+        // (the state no longer exists once every handle, future and stream is gone: closed and empty)
+        c.vref.verif_snapshot(&tag_of).unwrap_or_else(|| {
+            let mut sn = Snapshot::default();
+            sn.scalars = vec![1, 0, 0, 0, 0];
+            sn.queues = vec![vec![], vec![]];
+            sn
+        })
+    }
+    fn owners(c: &Self::Chan) -> Option<usize> {
+        Some(c.vref.verif_owners())
     }
     fn debug(c: &Self::Chan) -> String {
-        c.vref.verif_debug()
+        c.vref.verif_debug().unwrap_or_default()
     }
     fn send_node_debug(f: &Self::SF) -> String {
         f.verif_node_debug()
@@ -377,7 +390,12 @@ impl<F: Flavor> Sys<F> {
 
     fn invariants(&mut self, op: Op, buffer_before: &[u64], out: &mut StepOut) {
         // C18
-        let (na, nf) = harness::take_alloc_counts();
+        let (na, mut nf) = harness::take_alloc_counts();
+        if F::owners(self.chan()) == Some(0) {
+            // this step dropped the last owner of the shared state: freeing it (and its buffer)
+            // is destruction, which C18 exempts
+            nf = 0;
+        }
         if na + nf > 0 {
             // GrowingHeapBuf: only buffer growth may allocate, i.e. a push path (a send, or a receive
             // that refills the buffer from a parked sender) that makes the buffer longer than it has
